@@ -1,6 +1,8 @@
 import PacketVerif.Drv.Checksum
 import PacketVerif.Drv.Views
 import PacketVerif.Drv.Encode
+import PacketVerif.Drv.Dns
+import PacketVerif.Drv.Tables
 open PV
 
 /-- dispatch one protocol line to the module that knows the op -/
@@ -11,7 +13,9 @@ def dispatch (line : String) : String :=
     let hs : List (String → List String → Option String) := [
       Drv.Checksum.handle,
       Drv.Views.handle,
-      Drv.Encode.handle
+      Drv.Encode.handle,
+      Drv.Dns.handle,
+      Drv.Tables.handle
     ]
     match hs.findSome? (fun h => h cmd args) with
     | some r => r
